@@ -30,6 +30,26 @@ CHECKS = {
   "note": "Assumes xpv1 constructors return the constant Status in their body. Not decided: readiness checks, transient conditions written through desired XR status, truth of per-resource flags beyond the invalid-apply arm.",
   "technique": "static analysis: gate-crossing reachability, path enumeration with reaching-definition resolution and constant propagation of condition Status",
  },
+ "C04": {
+  "text": "Static analysis of the request-threading dataflow: Observed is one AsState value computed before the loop; Desired/Context are loop-carried phis defined only by a fresh empty value and this step's response accessor (no self-carry); the final state is the carried value; name/input/credentials derive from the same pipeline element; every condition and non-fatal result is appended without skip and carried by success and fatal returns; each requirements round re-creates ExtraResources and fills it from Fetch of the latest selectors, stopping only on whole-value equality; the v1 and v1beta1 message closures have identical protobuf tags and enum values; the connection cache returns a connection only for the Active revision's endpoint, under connsMx. Decides shapes and schema identity, not what functions do.",
+  "note": "Assumes protobuf re-encoding of schema-identical messages is lossless and generated accessors return their field. Not decided: selector matching semantics, gRPC delivery, byte equality.",
+  "technique": "static analysis: SSA phi/provenance analysis of loop-carried values, loop-bypass analysis, struct-tag table agreement between generated packages, lockset analysis",
+ },
+ "C06": {
+  "text": "Static analysis of both claim syncers and the claim reconciler: the XR write is reached only over the success edge of a resourceVersion-checked claim Update that follows SetResourceReference(reference of the XR object written) (client-side: or the already-recorded edge); the written XR is named from cm.GetResourceReference().Name before any name is generated; every effect on the XR in the reconciler crosses 'XR not created, no claimRef, or claimRef == this claim' and is unreachable from the not-equal edge. Decides ordering and provenance, not API-server concurrency control.",
+  "note": "Assumes client.Update is rejected when the resourceVersion is stale. Not decided: stale caches, interleavings with the XR reconciler, generated-name collisions.",
+  "technique": "static analysis: gate-crossing reachability on go/ssa CFG, SSA provenance (access paths of call results)",
+ },
+ "C07": {
+  "text": "Static analysis: field paths of the claim/XR accessors crossplane calls (extracted from crossplane-runtime method bodies) are covered by the xcrd filter tables; PropagateSpecProps and the fields the statement names lie where they must; the XR spec written is withoutKeys(claim spec, claim table minus allowed keys) and withoutKeys is top-level and value-preserving; status and metadata pass their filters; external name / compositionRef / revisionRef flow back only on their edges; no bulk XR-spec to claim-spec flow (one open known finding: the client-side syncer's late-initialisation merge). Decides table agreement and filter application, not value equality.",
+  "note": "Assumes fieldpath accessors touch exactly their constant path. Not decided: value equality, CRD pruning, SSA field ownership. Known finding F6 (open): ClientSideCompositeSyncer merges XR spec into claim spec.",
+  "technique": "static analysis: constant-table extraction and inclusion (AST + go/types), SSA provenance of filter arguments, gate-crossing reachability",
+ },
+ "C13": {
+  "text": "Static lockset and lock-order analysis of the engine and function-runner packages (path-sensitive in the lock state, conditional-defer idiom handled): guarded-by facts for the four shared maps on every path, pairing, acyclic held-to-acquired graph closed over calls made under a lock; watch start/stop actions re-decided under the write lock; one source per id after ok(Watch); the watch collector's stop list only takes ids compared equal to WatchTypeComposedResource. Decides the discipline on the named fields and mutexes, not absence of races/deadlocks as a whole-program theorem.",
+  "note": "Locks are identified by struct type and field (instance-insensitive). Not decided: informer behaviour, scheduling, whole-program race freedom. Finding F1 (fixed by commit 958191f) is re-derived by R13.6 on the pre-fix code.",
+  "technique": "static analysis: forward lockset / lock-order analysis on go/ssa, gate-crossing reachability, slice growth provenance",
+ },
  "C08": {
   "text": "Static typestate analysis over every CFG path of the five teardown reconcilers and engine.Stop: finalizer removal, CRD delete and controller stop are each gated by the success edges / guards the dependency order needs. Decides the ordering discipline inside one reconcile, not the cross-controller interleavings.",
   "note": "Assumes API calls are atomic and acknowledged deletes take effect; interface calls resolve to the production implementations. Not decided: joint ordering across controllers and Kubernetes GC, third-party finalizer removal, multi-reconcile fault sequences.",
